@@ -53,6 +53,12 @@ pub const FAMILIES: &[&str] = &[
     "export_fix2", "export_msl_fix2", "layout_fix2", "member_fix2", "redef_fn_global",
 ];
 
+/// Rejections introduced by fix batch 3 (their seeds come from a separate generator so that every earlier request
+/// of a run keeps its seed): fe5dd8d (an enum value named like a namespace of its scope), c805c03 (swizzles with more
+/// than four components), 92d66eb + 35faaaa (Metal: float remainder assignment whose target has side effects / whose
+/// right operand writes)
+pub const FAMILIES_FIX3: &[&str] = &["enum_value_namespace", "swizzle_long", "export_msl_fix3"];
+
 const POOL: &[&str] = &[
     "alpha", "beta", "gamma", "delta", "kappa", "lambda", "sigma", "omega", "theta", "zeta", "first", "second", "third",
     "item", "value", "count", "total", "index", "flag", "mask", "Big", "Bigger", "Biggest", "Huge", "None_", "All", "Invalid",
@@ -1632,6 +1638,119 @@ pub fn diag_program(family: &str, rng: &mut Rng) -> Option<DiagProg> {
             }
             s.push_str("}\n");
             s.push_str(COMPUTE_TAIL);
+        }
+        "enum_value_namespace" => {
+            // fe5dd8d: enum values that reuse the name of a namespace of the enclosing scope (k offenders: in one enum, or one
+            // per enum), optionally inside an outer namespace, and next to values that share their name with a constant
+            // buffer block (accepted since the same fix - those do not hide the offenders)
+            let ns = names(rng, k + 2);
+            let outer = rng.chance(1, 3);
+            if outer {
+                s.push_str("namespace Outer\n{\n");
+            }
+            let with_cbuffer = rng.chance(1, 2);
+            if with_cbuffer {
+                s.push_str(&format!("cbuffer {}\n{{\n    int member_{};\n}}\n", ns[k], ns[k]));
+            }
+            let mut decls: Vec<String> = ns[..k].iter().map(|n| format!("namespace {}\n{{\n    static const int inner_{} = 1;\n}}\n", n, n)).collect();
+            shuffle(rng, &mut decls);
+            for d in &decls {
+                s.push_str(d);
+            }
+            if rng.chance(1, 2) {
+                let mut items: Vec<String> = ns[..k].iter().map(|n| format!("    {}", n)).collect();
+                items.push(format!("    {} = 5", ns[k + 1]));
+                shuffle(rng, &mut items);
+                if with_cbuffer {
+                    items.insert(0, format!("    {}", ns[k]));
+                }
+                s.push_str(&format!("enum Holder\n{{\n{}\n}};\n", items.join(",\n")));
+            } else {
+                let mut es: Vec<String> = ns[..k].iter().enumerate().map(|(i, n)| format!("enum Holder{}\n{{\n    First_{} = {},\n    {}\n}};\n", i, n, i, n)).collect();
+                shuffle(rng, &mut es);
+                if with_cbuffer {
+                    es.insert(0, format!("enum Shared\n{{\n    {},\n    {}\n}};\n", ns[k], ns[k + 1]));
+                }
+                for e in &es {
+                    s.push_str(e);
+                }
+            }
+            if outer {
+                s.push_str("}\n");
+            }
+            s.push_str(COMPUTE_TAIL);
+        }
+        "swizzle_long" => {
+            // c805c03: swizzles of scalars and vectors with 5..8 components (reads and writes)
+            let ns = names(rng, k);
+            s.push_str("void body()\n{\n");
+            let mut uses: Vec<String> = Vec::new();
+            for n in &ns {
+                let (ty, set): (&str, &[&str]) = match rng.below(5) {
+                    0 => ("float4", &["x", "y", "z", "w"]),
+                    1 => ("int3", &["x", "y", "z"]),
+                    2 => ("uint2", &["r", "g"]),
+                    3 => ("float", &["x"]),
+                    _ => ("half", &["r"]),
+                };
+                let len = rng.range(5, 8) as usize;
+                let sw: String = (0..len).map(|_| *rng.pick(set)).collect::<Vec<_>>().join("");
+                let mut u = format!("    {} v_{} = ({})0;\n", ty, n, ty);
+                match rng.below(3) {
+                    0 => u.push_str(&format!("    v_{}.{};\n", n, sw)),
+                    1 => u.push_str(&format!("    float r_{} = (float)v_{}.{}.x;\n", n, n, sw)),
+                    _ => u.push_str(&format!("    v_{}.{} = 1;\n", n, sw)),
+                }
+                uses.push(u);
+            }
+            shuffle(rng, &mut uses);
+            for u in &uses {
+                s.push_str(u);
+            }
+            s.push_str("}\n");
+            s.push_str(COMPUTE_TAIL);
+        }
+        "export_msl_fix3" => {
+            // 92d66eb: on Metal `target %= value` over floats becomes `target = fmod(target, value)`; a target with side
+            // effects - and since 35faaaa a right operand that writes - is an export error (ComplexRemainderAssignment). k offenders in k functions / statements; the HLSL
+            // targets accept the program (the operator is kept)
+            let ns = names(rng, k);
+            s.push_str("static int s_count = 0;\nint bump()\n{\n    s_count = s_count + 1;\n    return s_count;\n}\nstruct Holder\n{\n    float m[4];\n    float3 v;\n};\n");
+            let per_function = rng.chance(1, 2);
+            let mut bodies: Vec<String> = Vec::new();
+            for n in &ns {
+                // 35faaaa: a right operand that writes (call, assignment, increment) is refused as well
+                let (target, value) = match rng.below(8) {
+                    0 => (format!("a_{}[i++]", n), "y".to_string()),
+                    1 => (format!("a_{}[--i]", n), "y".to_string()),
+                    2 => (format!("a_{}[bump()]", n), "y".to_string()),
+                    3 => (format!("h_{}.m[i += 1]", n), "y".to_string()),
+                    4 => (format!("h_{}.m[bump() & 3]", n), "y".to_string()),
+                    5 => (format!("a_{}[1]", n), "(float)bump()".to_string()),
+                    6 => (format!("h_{}.v", n), format!("(h_{}.v = float3(y, y, y))", n)),
+                    _ => (format!("h_{}.m[2]", n), "(float)(i++)".to_string()),
+                };
+                bodies.push(format!("    float a_{}[4];\n    Holder h_{};\n    a_{}[0] = 1.0f;\n    h_{}.m[0] = 1.0f;\n    {} %= {};\n", n, n, n, n, target, value));
+            }
+            shuffle(rng, &mut bodies);
+            if per_function {
+                for (i, b) in bodies.iter().enumerate() {
+                    s.push_str(&format!("void body{}(int i, float y)\n{{\n{}}}\n", i, b));
+                }
+                s.push_str("[numthreads(1, 1, 1)]\nvoid entry()\n{\n");
+                let mut order: Vec<usize> = (0..bodies.len()).collect();
+                shuffle(rng, &mut order);
+                for i in order {
+                    s.push_str(&format!("    body{}(0, 2.0f);\n", i));
+                }
+                s.push_str("}\nPipeline P\n{\n    ComputeShader = entry;\n}\n");
+            } else {
+                s.push_str("void body(int i, float y)\n{\n");
+                for b in &bodies {
+                    s.push_str(b);
+                }
+                s.push_str("}\n[numthreads(1, 1, 1)]\nvoid entry()\n{\n    body(0, 2.0f);\n}\nPipeline P\n{\n    ComputeShader = entry;\n}\n");
+            }
         }
         _ => return None,
     }
